@@ -1,54 +1,23 @@
-"""Per-property configuration of the check driver (what to build, budgets, evidence texts)."""
+"""Per-property configuration of the check driver: one file per property under bin/propcfg/<ID>.py defining CFG."""
+import glob
+import importlib.util
+import os
+import sys
 
-STD_ASSUME = [
-    "API code (pb/grpc) is regenerated by /verif/tools/pbgen from /repo/api/proto because the tree ships none; protoc-gen-validate rules are no-op stubs, the HTTP gateway is a signature-only stub",
-    "sampling, not proof: a clean batch is evidence for the explored seeds only",
-]
+HERE = os.path.dirname(os.path.abspath(__file__))
+sys.path.insert(0, HERE)
+from props_common import STD_ASSUME  # noqa: E402,F401
 
 PROPS = {}
+for _p in sorted(glob.glob(os.path.join(HERE, "propcfg", "C*.py"))):
+    _id = os.path.basename(_p)[:-3]
+    _spec = importlib.util.spec_from_file_location("propcfg_" + _id, _p)
+    _m = importlib.util.module_from_spec(_spec)
+    _spec.loader.exec_module(_m)
+    PROPS[_id] = _m.CFG
 
 NOT_APPLICABLE = {
     "C11": "pure function of a value sequence / byte string: no schedule, clock, peer, fault or I/O ordering for a simulator to own; input generation alone would be property-based testing in simulator vocabulary (DESIGN.md §4)",
     "C12": "pure relation over pairs of values and an injectivity claim over tuples: nothing concurrent, timed or faulty to simulate (DESIGN.md §4)",
 }
 NOT_CLAIMED = {}
-
-PROPS["C16"] = {
-    "pkg": "banyand/internal/verif/props/c16",
-    "level": "exploration",
-    "level_text": ("seeded exploration of membership-event histories (orders, repetitions, re-adds, re-syncs) over 2-4 real selector+registry instances "
-                   "against a direct oracle (agreement with a coordinator that learned the final topology directly, liveness of the chosen node, replica disjointness); "
-                   "sampling is the right level because the space of histories is unbounded and the oracle is exact per history"),
-    "level_note": "trusted: the in-memory registry stub and the event generator (per-entity order preserved); pub's connection manager that emits the events in production is not run",
-    "budget": {"quick": 30, "thorough": 600},
-    "rule": ("each seed draws a target topology (1-4 groups with 1-5 shards and 0-2 replicas, 1-6 nodes, some absent) and for each of 2-4 "
-             "coordinators an independent history of group/node add/update/remove events ending in it, with duplicated notifications, "
-             "remove+re-add and OnInit re-syncs mid-history; plus one coordinator that learns the final topology directly. "
-             "A run is non-trivial when at least one node is live; distinct = distinct canonical event-log digests"),
-    "expected_probes": ["fault.event_duplicated", "reach.oninit_mid_history", "reach.replica_disjoint_checked"],
-    "real_vs_stub": {
-        "real": ["pkg/node roundRobinSelector", "banyand/liaison/grpc clusterNodeService (Locate/LocateAll/event handler)", "pkg/partition Locator/ShardID/TraceShardID"],
-        "stub": ["metadata registry (simmeta, in-memory)", "queue.Client is queue.Local() (only Register is used)", "membership events are generated by the workload, not by pub's connection manager"],
-    },
-    "assumptions": STD_ASSUME + ["event histories preserve per-entity order (add/remove of one node arrive in order at one coordinator); different entities interleave freely"],
-}
-
-PROPS["C17"] = {
-    "pkg": "banyand/internal/verif/props/c17",
-    "level": "exploration",
-    "level_text": ("seeded exploration of part-transfer sessions: the real pub chunk sender talks to the real sub.SyncPart receiver state machine over an in-memory "
-                   "stream on which each request/response can be bit-flipped, truncated, dropped, duplicated, reordered or the stream cut; oracle: an install is byte-identical "
-                   "to the sender's part or does not happen, a sender told 'success' implies exactly one install, a fault-free retry installs exactly once"),
-    "level_note": "trusted: the recording part handler stands for the engines' handlers (install = FinishSync, discard = Close); gRPC transport itself is replaced by the in-memory stream pair",
-    "budget": {"quick": 40, "thorough": 900},
-    "rule": ("each seed draws chunk size (1 byte .. > part), 1-3 parts with 1-3 part types and 1-5 files of boundary sizes (0,1,chunk-1,chunk,chunk+1,2*chunk..), receiver ordering knobs, "
-             "and 0-2 wire faults at tape-chosen message positions; lockstep scenario = real sender+receiver, pipelined scenario = recorded real request sequence replayed with "
-             "reorder/dup/drop/flip/early end. Non-trivial = at least one fault fired; distinct = distinct canonical event-log digests"),
-    "expected_probes": ["fault.req.flip-data", "fault.req.dup", "fault.req.drop", "fault.req.cut", "fault.resp.drop", "fault.reorder_delay", "fault.early_stream_end",
-                        "reach.session_failed_cleanly", "reach.faulted_session_still_succeeded"],
-    "real_vs_stub": {
-        "real": ["banyand/queue/pub chunkedSyncClient (SyncStreamingParts, chunking, retries)", "banyand/queue/sub server.SyncPart (sessions, reorder buffer, checksum, completion)"],
-        "stub": ["gRPC/HTTP2 transport (in-memory stream pair through a hook in the generated client constructor)", "engine part handlers (recording handler)", "clock (synctest)"],
-    },
-    "assumptions": STD_ASSUME + ["a silently dropped message is modelled as loss followed by the 30 s (simulated) session deadline"],
-}
